@@ -399,7 +399,7 @@ def canon_model_ctl(m):
 
 # ----------------------------------------------------------------------------- one run of the real controller
 
-def run_case(spec, ws, seed, fifo, none_output=None, max_rounds=None, alarm_s=10):
+def run_case(spec, ws, seed, fifo, none_output=None, max_rounds=None, alarm_s=60):
     """Returns dict(trace, viol, outcome, outputs, rounds, ...). `trace` is the op list for the Lean driver,
     each controller entry carrying the implementation's digest for comparison."""
     import cascade.controller.impl as impl
